@@ -17,8 +17,8 @@ tbl="| seed | property | changed file (kernel/) | needs to manifest | `./vf chec
 txt="""### 9.7 Which checks catch which changes
 
 **(a) Independently seeded changes (`seeded/<id>/`).** Each was written by a fresh sub-agent that was given only the text of one
-property (plus, from the second round on, a one-line hint which *area* of the anchored code to choose, so that the changes spread over
-the code) and its own git worktree of the repository - nothing from /verif - and asked for a change that breaks the property, still
+property (plus, from the second round on, a one-line hint which *area* of the anchored code to choose - in the fourth round: which files
+earlier rounds had already used - so that the changes spread over the code) and its own git worktree of the repository - nothing from /verif - and asked for a change that breaks the property, still
 compiles and passes the repository's unit tests, and needs something specific to manifest. Every change was confirmed by
 `tools_seedcheck.sh` before it was kept: the patch applies, the named unit tests build and pass with it in a separate validation build
 of the repository (`/var/tmp/mutwt`, own cmake build; MPI seeds: the seed author's MPI build + `mpirun`), the demonstration program
@@ -48,6 +48,14 @@ pattern behind each miss was then applied proactively to all harnesses (section 
 * *Faults a byte cannot produce* (C11b): attribute deletion / rename / duplication classes and a scanner-level grammar enumeration.
 * *Configurations excluded too generously* (C16b): streamline-diffusion Burgers configurations were excluded from the integral oracle and,
   wrongly, also from the route comparison.
+* *Anchored code that no harness reached* (round d: C08d, C18d, C03d, C16d, C02d): AmaVanka/Vanka/Uzawa/Schwarz, the control-level
+  `asm_transfer_*`, `DenseMatrix::multiply/transpose` and symbolic assembly on permuted meshes were named by the anchors but not
+  driven. New harnesses `c08_amavanka`, `c08_vanka`, `c08_uzawa`, `c18_asm`, `c16_pattern(3d)` and extensions of `c03_algebra` /
+  `c02_convert`; `tools_cov.py` (a gcov audit of the anchor files per property, not a deciding step) now lists what no harness executes.
+* *Self-aliasing and block-shape alphabets* (C02d, C01d): `x.op(x)` for every target-writing operation; composed matrices whose block
+  dimensions are pairwise different so that no two slice offsets coincide.
+* *Failure paths under every schedule* (C17d): `c17_sched` injects one throwing task operation at every position.
+* *Grown objects* (C20d): containers after one or two re-allocations, followed by the whole copy alphabet.
 * C19b additionally exposed a machinery gap: the change makes `calc_swap_from_perm` loop forever and the first confirmation run hung for
   an hour. The runner got a per-case **watchdog** (a worker that stays in one case beyond `case_timeout_s` without a heartbeat is killed,
   the case is re-run alone under an alarm and reported with key `hang`).
